@@ -97,6 +97,7 @@ func main() {
 	r.Extra("wall_s_by_part", map[string]float64{"setup_codes": t1.Sub(t0).Seconds(), "setup_uris": t2.Sub(t1).Seconds(), "structure_sweep": t3.Sub(t2).Seconds(), "histories": time.Since(t3).Seconds()})
 
 	r.Floor("histories_completed", int(r.Counter("histories_completed")), n*9/10)
+	r.Floor("histories_continued_from_a_large_configuration_number", int(r.Counter("histories_continued_from_a_large_configuration_number"))+100*r.ViolationCount(), n/10)
 	r.Floor("bumps_observed", int(r.Counter("bumps_observed")), n/2)
 	r.Floor("restarts_without_bump", int(r.Counter("restarts_without_bump")), n/2)
 	r.Floor("transitions_values_only", int(r.Counter("transitions_values_only")), n/3)
